@@ -447,6 +447,16 @@ def code_arrays(n, dt, full):
             yield np.array([c, n - 1], dtype=dt)
 
 
+def _dedupe(items):
+    seen, out = set(), []
+    for x in items:
+        key = json.dumps(enc_arg(x), sort_keys=True)
+        if key not in seen:
+            seen.add(key)
+            out.append(x)
+    return out
+
+
 def run_letter(shard, ctx):
     syms, full = shard["alph"], shard["mode"] == "full"
     if not ctx.journal({"kind": "letter", "alph": syms, "unit": "shard", "mode": shard["mode"]}):
@@ -468,7 +478,7 @@ def letter_battery(ctx, syms, full):
     singles = [bytes([b]) for b in range(256)] + [chr(b) for b in range(256)]
     extras = ["", b"", syms[0] * 2, syms[0] + "x", "x" + syms[0], (syms[0] * 2).encode(), "Ā", "€",
               chr(ord(syms[0]) + 256)] + OBJECTS
-    for x in singles + extras:
+    for x in _dedupe(singles + extras):
         check_l_encode(ctx, A, M, syms, x)
     # encode_multiple
     v0, vl = syms[0], syms[-1]
@@ -487,7 +497,7 @@ def letter_battery(ctx, syms, full):
     # elements that are not single characters
     inputs += [[v0, vl * 2], [vl + "x"], (v0 + v0,), np.array([v0 + vl, v0]), np.array([(v0 + vl).encode()]),
                [(vl + vl).encode()], [v0, ""], [None], [v0, 1], [v0, None], [65], [1.5]]
-    for x in inputs:
+    for x in _dedupe(inputs):
         check_l_encode_multiple(ctx, A, M, syms, x)
     # round trip of whole sequences
     if n <= 4:
@@ -654,7 +664,11 @@ def check_g_seq(ctx, A, M, case, symbols):
     ctx.outcome(("g", codes))
 
 
-def check_g_code(ctx, A, M, case, form, codes):
+def check_g_code(ctx, A, M, case, form, codes, seen=None):
+    if seen is not None:
+        if (form, tuple(codes)) in seen:
+            return
+        seen.add((form, tuple(codes)))
     mk = lambda: {**case, "unit": "code", "form": form, "codes": codes}  # noqa: E731
     cls = worst_code_class(codes, M.n)
     exp = [M.decode(c) for c in codes]
@@ -700,6 +714,7 @@ def run_generic(shard, ctx):
 def generic_battery(ctx, case):
     A, M = gen_alphabet(case)
     n = M.n
+    seen = set()
     r = call(lambda: [same_syms(list(A.get_symbols()), M.symbols), len(A), same_syms(list(A), M.symbols)])
     judge(ctx, "Alphabet()", "views", lambda: {**case, "unit": "construct"}, r, ("accept", [True, n, True]))
     if case.get("big"):
@@ -709,8 +724,8 @@ def generic_battery(ctx, case):
                 check_g_seq(ctx, A, M, case, [M.symbols[c], M.symbols[n - 1 - c]])
         for c in [-1, 0, 255, 256, n - 1, n, n + 1, 511, 512, 65535, 65536, 65536 + 5, -65536, -65531, 2**32 + 5]:
             for form in ("int", "npint", "list", "int64"):
-                check_g_code(ctx, A, M, case, form, [c])
-            check_g_code(ctx, A, M, case, "int64", [0, c])
+                check_g_code(ctx, A, M, case, form, [c], seen)
+            check_g_code(ctx, A, M, case, "int64", [0, c], seen)
         return
     foreign = [f for f in FOREIGN + [[1]] if not (call(hash, f)[0] == "ok" and M.has(f))]
     for L in range(0, 4):
@@ -723,14 +738,14 @@ def generic_battery(ctx, case):
             check_g_seq(ctx, A, M, case, [f, s])
     for c in list(range(-2, n + 2)) + [255, 256, 256 + n - 1, -256, -255, 65536]:
         for form in ("int", "npint", "list", "int64", "int16" if abs(c) < 32768 else "int64"):
-            check_g_code(ctx, A, M, case, form, [c])
+            check_g_code(ctx, A, M, case, form, [c], seen)
         if 0 <= c < 256:
-            check_g_code(ctx, A, M, case, "uint8", [c])
+            check_g_code(ctx, A, M, case, "uint8", [c], seen)
         for form in ("list", "int64"):
-            check_g_code(ctx, A, M, case, form, [0, c])
-            check_g_code(ctx, A, M, case, form, [c, n - 1])
-    check_g_code(ctx, A, M, case, "list", [])
-    check_g_code(ctx, A, M, case, "int64", [])
+            check_g_code(ctx, A, M, case, form, [0, c], seen)
+            check_g_code(ctx, A, M, case, form, [c, n - 1], seen)
+    check_g_code(ctx, A, M, case, "list", [], seen)
+    check_g_code(ctx, A, M, case, "int64", [], seen)
     ctx.sample({**case, "unit": "seq", "symbols": [enc_sym(s) for s in M.symbols[:2]]})
 
 
@@ -1449,7 +1464,13 @@ def seq_ops(cls, pal, s, full, seed):
     ops += [["reverse"], ["eq", 0], ["eq", 1], ["copy"]]
     if cls in ("nuc", "nuca"):
         ops.append(["complement"])
-    return ops
+    seen, out = set(), []
+    for op in ops:
+        key = json.dumps(op)
+        if key not in seen:
+            seen.add(key)
+            out.append(op)
+    return out
 
 
 def seq_strings(shard, tier, seed):
